@@ -13,7 +13,7 @@ import ast
 import z3
 
 from ..core import seed, PKG, Ob, PROVED, REFUTED, FAULT, try_replay
-from ..pyvc import (Exec, Ctx, Obj, Opt, NONE, ExcVal, Builtin, TypeRef, Seq, GenError, LoopSpec, Closure, verify_function, discharge)
+from ..pyvc import (Exec, Ctx, Obj, Opt, NONE, ExcVal, Builtin, TypeRef, Seq, GenError, LoopSpec, Closure, verify_function, discharge, accumulators)
 from ..contracts import frontend as FE
 from ..contracts import model as M
 from .. import smt
@@ -325,9 +325,12 @@ def obligations():
     LENS = [l_len(N) >= 0, l_len(Q) >= 0, l_len(S) >= 0]
 
     # ---------------- _collect_unique_dimension(nums, qtys, syms)
+    _fd = lambda q: mk_exec(facts).find_def(q)
+    ud_name = accumulators(_fd("_collect_unique_dimension"), 0)["carried"][0]
+
     def q_loop():
         def inv(ex, ctx, ghost, k, seq):
-            dim = ctx.env["dim"]
+            dim = ctx.env[ud_name]
             dn = dim.is_none if isinstance(dim, Opt) else z3.BoolVal(dim is NONE)
             dv = dim.val if isinstance(dim, Opt) else (M.DIMENSIONLESS if dim is NONE else dim)
             return z3.And(k >= 0, k <= l_len(Q), dn == z3.Not(UK_Q(N, Q, k)), z3.Implies(UK_Q(N, Q, k), M.d_equiv(dv, UD_Q(N, Q, k))), z3.Not(UE_Q(N, Q, k)))
@@ -335,7 +338,7 @@ def obligations():
 
     def s_loop():
         def inv(ex, ctx, ghost, k, seq):
-            dim = ctx.env["dim"]
+            dim = ctx.env[ud_name]
             dn = dim.is_none if isinstance(dim, Opt) else z3.BoolVal(dim is NONE)
             dv = dim.val if isinstance(dim, Opt) else (M.DIMENSIONLESS if dim is NONE else dim)
             return z3.And(k >= 0, k <= l_len(S), dn == z3.Not(UK_S(N, Q, S, k)), z3.Implies(UK_S(N, Q, S, k), M.d_equiv(dv, UD_S(N, Q, S, k))),
@@ -394,11 +397,13 @@ def obligations():
                 SLs(e, k + 1) == z3.If(z3.And(other_ok, z3.Not(subq)), l_app(SLs(e, k), RX(a), RD(a)), SLs(e, k)),
                 SERR(e, k + 1) == z3.Or(SERR(e, k), z3.And(z3.Not(isq), z3.Not(isn), RERR(a) != 0))]
 
+    sp_names = accumulators(_fd("_split_numeric_and_symbolic"), 0)["appended"]  # numbers, quantities, symbolic operands (order of creation)
+
     def split_loop():
         def inv(ex, ctx, ghost, k, seq):
-            return z3.And(k >= 0, k <= M.nargs(e), ctx.env["nums"] == NLs(e, k), ctx.env["qtys"] == QLs(e, k), ctx.env["syms"] == SLs(e, k), z3.Not(SERR(e, k)))
+            return z3.And(k >= 0, k <= M.nargs(e), ctx.env[sp_names[0]] == NLs(e, k), ctx.env[sp_names[1]] == QLs(e, k), ctx.env[sp_names[2]] == SLs(e, k), z3.Not(SERR(e, k)))
         return LoopSpec(init=lambda ex, ctx, seq: {}, inv=inv, step=lambda ex, ctx, ghost, elem, k, seq: ({}, split_step(k) + [mono(SERR, (e,), k + 1, M.nargs(e))]),
-                        modifies=("nums", "qtys", "syms"))
+                        modifies=tuple(sp_names))
 
     ex = mk_exec(facts, loop_specs={"_split_numeric_and_symbolic": {0: split_loop()}})
 
@@ -431,10 +436,15 @@ def obligations():
         return res
 
     # ---------------- _collect_mul
+    mfd = _fd("_collect_mul")
+    m_factor = accumulators(mfd, 0)["carried"][0]
+    m_factor2, m_qdim = accumulators(mfd, 1)["carried"][:2]
+    m_expr, m_dim = accumulators(mfd, 2)["carried"][:2]
+
     def mul_loops():
         def n_inv(ex, ctx, ghost, k, seq):
             n_ = ctx.ghost["split_result"][0]
-            return z3.And(k >= 0, k <= l_len(n_), cx_lit(ctx.env["qty_factor"]) == ANYP(n_, k))
+            return z3.And(k >= 0, k <= l_len(n_), cx_lit(ctx.env[m_factor]) == ANYP(n_, k))
 
         def n_step(ex, ctx, ghost, elem, k, seq):
             n_ = ctx.ghost["split_result"][0]
@@ -442,7 +452,7 @@ def obligations():
 
         def q_inv(ex, ctx, ghost, k, seq):
             n_, q_, _ = ctx.ghost["split_result"]
-            return z3.And(k >= 0, k <= l_len(q_), cx_lit(ctx.env["qty_factor"]) == z3.Or(ANYP(n_, l_len(n_)), SANYP(q_, k)), M.d_equiv(ctx.env["qty_dim"], QDP(q_, k)))
+            return z3.And(k >= 0, k <= l_len(q_), cx_lit(ctx.env[m_factor2]) == z3.Or(ANYP(n_, l_len(n_)), SANYP(q_, k)), M.d_equiv(ctx.env[m_qdim], QDP(q_, k)))
 
         def q_step(ex, ctx, ghost, elem, k, seq):
             q_ = ctx.ghost["split_result"][1]
@@ -451,10 +461,10 @@ def obligations():
 
         def s_inv(ex, ctx, ghost, k, seq):
             n_, q_, s_ = ctx.ghost["split_result"]
-            return z3.And(k >= 0, k <= l_len(s_), M.d_equiv(ctx.env["dim"], M.d_mul(QDP(q_, l_len(q_)), SDP(s_, k))),
-                          z3.Not(z3.Or(ANYP(n_, l_len(n_)), SANYP(q_, l_len(q_)))), z3.Implies(k > 0, z3.Not(cx_isqty(ctx.env["expr_"]))),
+            return z3.And(k >= 0, k <= l_len(s_), M.d_equiv(ctx.env[m_dim], M.d_mul(QDP(q_, l_len(q_)), SDP(s_, k))),
+                          z3.Not(z3.Or(ANYP(n_, l_len(n_)), SANYP(q_, l_len(q_)))), z3.Implies(k > 0, z3.Not(cx_isqty(ctx.env[m_expr]))),
                           z3.Implies(k == 0, z3.If(M.d_is_dimensionless(QDP(q_, l_len(q_))), z3.BoolVal(True),
-                                                   z3.And(cx_isqty(ctx.env["expr_"]), M.d_equiv(cx_qdim(ctx.env["expr_"]), QDP(q_, l_len(q_))), z3.Not(cx_lit(cx_scale(ctx.env["expr_"])))))))
+                                                   z3.And(cx_isqty(ctx.env[m_expr]), M.d_equiv(cx_qdim(ctx.env[m_expr]), QDP(q_, l_len(q_))), z3.Not(cx_lit(cx_scale(ctx.env[m_expr])))))))
 
         def s_step(ex, ctx, ghost, elem, k, seq):
             s_ = ctx.ghost["split_result"][2]
